@@ -1275,7 +1275,7 @@ fn e_sel(rng: &mut StdRng) -> validator::LeaderSelection {
     validator::LeaderSelection { frequency: e_u64(rng), mode: e_mode(rng) }
 }
 fn e_schedule(rng: &mut StdRng) -> validator::Schedule {
-    let n = rng.gen_range(1..=4);
+    let n = pick(rng, &[1usize, 1, 2, 3, 4]);
     let mut keys: Vec<usize> = (0..POOL.vkeys.len()).collect();
     keys.shuffle(rng);
     let huge = rng.gen_range(0..n);
@@ -1296,7 +1296,18 @@ fn e_genesis_raw(rng: &mut StdRng) -> validator::GenesisRaw {
         fork_number: validator::ForkNumber(e_u64(rng)),
         protocol_version: validator::ProtocolVersion(2),
         first_block: validator::BlockNumber(e_u64(rng)),
-        validators_schedule: e_opt(rng, e_schedule),
+        // None / a single validator / several
+        validators_schedule: match rng.gen_range(0..3) {
+            0 => None,
+            1 => Some(
+                validator::Schedule::new(
+                    vec![validator::ValidatorInfo { key: e_vkey(rng).public(), weight: pick(rng, &[1u64, u64::MAX]), leader: true }],
+                    e_sel(rng),
+                )
+                .expect("single-validator schedule"),
+            ),
+            _ => Some(e_schedule(rng)),
+        },
     }
 }
 fn e_proposal(rng: &mut StdRng) -> validator::Proposal {
@@ -1626,7 +1637,7 @@ fn registry() -> Vec<(&'static str, GenFn)> {
 fn make_value(reg: &[(&'static str, GenFn)], key: &str, seed: u64) -> Option<Box<dyn WireValue>> {
     let (_, f) = reg.iter().find(|(k, _)| *k == key)?;
     let rng = &mut StdRng::seed_from_u64(seed);
-    let edge = rng.gen_ratio(1, 3);
+    let edge = seed & 1 == 1;
     Some(f(rng, edge))
 }
 
@@ -1888,8 +1899,9 @@ impl C09 {
     fn gen_typed(&self, ops: &mut Vec<Value>, rng: &mut StdRng, n: usize) {
         let per_type = (n / 40).max(2);
         for (key, _) in &self.reg {
-            for _ in 0..per_type {
-                let seed: u64 = rng.gen();
+            for i in 0..per_type {
+                // the lowest seed bit selects the edge generator: every other value of every type is an edge value
+                let seed: u64 = (rng.gen::<u64>() & !1) | ((i % 2 == 0) as u64);
                 let x = make_value(&self.reg, key, seed).expect("registered");
                 let name = x.proto_name();
                 let desc = self.desc(&name).unwrap_or_else(|| panic!("no descriptor for {name}"));
